@@ -349,6 +349,9 @@ def run_cases(cases, tag, features=(), ic=False, release=True, shards=8, runner_
     """Runs the cases through the harness and the runner.  Returns (impl_lines,
     model_lines, model_in_lines)."""
     os.makedirs(WORK, exist_ok=True)
+    # the runner is the extracted model: rebuilt whenever the model (incl. the tables the translator
+    # regenerated from /repo on this run) is newer than the binary
+    build_runner()
     exe = build_harness(features, release)
     shard_n = max(1, min(shards, (len(cases) + 199) // 200))
     chunks = [cases[i::shard_n] for i in range(shard_n)]
